@@ -453,3 +453,59 @@ def gen_C08(rng, tier):
         p.tag('wild' if wild else 'history')
         progs.append(p)
     return progs
+
+
+def exhaustive_flag_states(tier):
+    """EVERY combination of operand gradient-context states with every public operation, on one fixed small shape:
+    the flag logic (tracked / spent / gradient / edges) depends on the states only, so this enumerates its whole input space.
+    Operand states: fresh tracked leaf, fresh untracked leaf, tracked result, spent leaf (after a back-propagation), spent
+    interior result, result computed from a spent tensor, gradient tensor handed out by Gradient(), tensor reset to
+    tracked, tensor reset to untracked."""
+    progs = []
+    shape = [2, 2]
+    vals = [0.5, 0.75, 1.25, 1.5]
+    STATES = ['T', 'U', 'Tres', 'spent', 'spent-int', 'from-spent', 'gradient', 'resetT', 'resetU']
+    def make(p, st):
+        if st == 'T': return p.tensor(shape, vals, tracked=True)
+        if st == 'U': return p.tensor(shape, vals, tracked=False)
+        if st == 'Tres':
+            a = p.tensor(shape, vals, tracked=True); return p.bind('scale %s %s' % (a, f2b(2.0)))
+        if st in ('spent', 'spent-int', 'from-spent', 'gradient', 'resetT', 'resetU'):
+            a = p.tensor(shape, vals, tracked=True)
+            m = p.bind('scale %s %s' % (a, f2b(2.0)))
+            z = p.bind('mul %s %s' % (m, m))
+            p.add('bp %s' % z)
+            if st == 'spent': return a
+            if st == 'spent-int': return m
+            if st == 'from-spent': return p.bind('scale %s %s' % (m, f2b(0.5)))
+            if st == 'gradient': return p.bind('grad %s' % a, 'g')
+            p.add('reset %s %d' % (a, 1 if st == 'resetT' else 0)); return a
+    UN = ['scale $A %s' % f2b(2.0), 'pow $A %s' % f2b(2.0), 'exp $A', 'log $A', 'sin $A', 'cos $A', 'tan $A', 'sinh $A', 'cosh $A', 'tanh $A',
+          'transpose $A', 'reshape $A 4', 'unsqueeze $A 0', 'squeeze $A 0', 'flatten $A 0', 'broadcast $A 2,2,2', 'slice $A 0:1',
+          'sumalong $A 0', 'maxalong $A 1', 'minalong $A 0', 'avgalong $A 1', 'varalong $A 0', 'stdalong $A 1', 'meanalong $A 0']
+    BINOPS = ['add', 'sub', 'mul', 'div', 'dot', 'matmul', 'elmax', 'elmin', 'eq', 'ne', 'gt', 'ge', 'lt', 'le']
+    for st in STATES:
+        for ui, u in enumerate(UN):
+            p = Prog('fs_u_%s_%d' % (st, ui))
+            a = make(p, st)
+            r = p.bind(u.replace('$A', a)); p.add('obs %s' % r)
+            p.add('bp %s' % r); p.add('obs %s' % a); p.add('obs %s' % r)
+            r2 = p.bind('scale %s %s' % (r, f2b(3.0))); p.add('obs %s' % r2)
+            p.tag('exhaustive-flag-states'); progs.append(p)
+    for sa in STATES:
+        for sb in STATES:
+            for o in BINOPS + ['concat', 'patch']:
+                for same in ([False, True] if sa == sb else [False]):
+                    p = Prog('fs_b_%s_%s_%s%s' % (sa, sb, o, '_same' if same else ''))
+                    a = make(p, sa)
+                    b = a if same else make(p, sb)
+                    if o == 'concat': r = p.bind('concat %s,%s 1' % (a, b))
+                    elif o == 'patch':
+                        c = p.bind('slice %s 0:1' % b); r = p.bind('patch %s 1:2 %s' % (a, c))
+                    else: r = p.bind('%s %s %s' % (o, a, b))
+                    p.add('obs %s' % r)
+                    p.add('bp %s' % r); p.add('obs %s' % a); p.add('obs %s' % b); p.add('obs %s' % r)
+                    r2 = p.bind('mul %s %s' % (r, r)); p.add('obs %s' % r2)
+                    p.add('bp %s' % r2); p.add('obs %s' % r2); p.add('obs %s' % a)
+                    p.tag('exhaustive-flag-states'); progs.append(p)
+    return progs
